@@ -126,6 +126,7 @@ func c19StreamsT(seed int64, thorough bool) []*Stream {
 		}
 		ss = append(ss, BuildStream("hostile-contents", lists, roundRobin(lists), nil))
 	}
+	ss = append(ss, VersionToggleStream(seed))
 	{ // a longer multiplex: PAT, PMT, two PES PIDs with several units, a 2-packet SDT (13 packets)
 		ccs := []uint8{0, 0, 4, 9, 15}
 		pat, pmt, sdt := modelPAT(1, 0x1000), modelPMT(1, 0x100, 2), modelSDT(7)
@@ -779,6 +780,29 @@ func NetworkPIDStream(seed int64, netPID uint16) *Stream {
 	// order: NIT-A, PAT, PMT, PES, NIT-B
 	order := []int{0, 1, 2, 3, 0}
 	return BuildStream(fmt.Sprintf("network-pid-%#x-before-pat", netPID), lists, order, nil)
+}
+
+// VersionToggleStream: tables that change over time and come back to a version number they had before with
+// other content of the same length (a multiplexer toggling version 0, 1, 0): PAT three times (programme 1 on
+// PMT PID 0x1000, 0x1001, 0x1002), each followed by the PMT it announces (same version, different PCR PID) and
+// an SDT of the same shape; the last table of every PID has the header of the first one.
+func VersionToggleStream(seed int64) *Stream {
+	var ps []*ref.Pkt
+	c0, cs, ce := uint8(0), uint8(3), uint8(6)
+	cp := map[uint16]*uint8{0x1000: new(uint8), 0x1001: new(uint8), 0x1002: new(uint8)}
+	for k := 0; k < 3; k++ {
+		ver := uint8(k % 2)
+		pmtPID := uint16(0x1000 + k)
+		pat := modelPAT(1, pmtPID)
+		pmt := modelPMT(1, uint16(0x100+k), 1)
+		sdt := modelSDT(1)
+		sdt.Services[0].ServiceID = uint16(0x20 + k)
+		ps = append(ps, Packetize(PSIUnit(0, 0, [][]byte{SecPAT(pat, ref.SecHdr{CNI: true, Version: ver})}, nil), nil, &c0, true)...)
+		ps = append(ps, Packetize(PSIUnit(pmtPID, 0, [][]byte{SecPMT(pmt, ref.SecHdr{CNI: true, Version: ver})}, nil), nil, cp[pmtPID], true)...)
+		ps = append(ps, Packetize(PSIUnit(0x11, 0, [][]byte{SecSDT(sdt, ref.SecHdr{CNI: true, Version: ver})}, nil), nil, &cs, true)...)
+		ps = append(ps, Packetize(PESUnit(0x100, 0xe0, pesPayload(80+k, 100, seed), uint64(k+1), false), nil, &ce, false)...)
+	}
+	return &Stream{Name: "version-toggle", Pkts: ps, Bytes: EncodePkts(ps)}
 }
 
 // c20Answers drains a Demuxer through one API and returns every answer in order: the canonical dump of a
